@@ -988,6 +988,11 @@ func (p *pendingReadIndex) gc(now uint64) {
 }
 
 func getRng(shardID uint64, replicaID uint64, shard uint64) *keyGenerator {
+	if verifEnabled {
+		if seed, ok := verifKeySeed(shardID, replicaID, shard); ok {
+			return &keyGenerator{rand: rand.New(rand.NewSource(seed))}
+		}
+	}
 	pid := os.Getpid()
 	nano := time.Now().UnixNano()
 	seedStr := fmt.Sprintf("%d-%d-%d-%d-%d", pid, nano, shardID, replicaID, shard)
